@@ -621,7 +621,7 @@ func runC05Prepare(e *Env) {
 	var conns []*c05pConn
 	hows := make([]int, nclients)
 	for i := range hows {
-		hows[i] = e.Intn(3)
+		hows[i] = e.Intn(4) // 3: let through, then detached by the user once accepted
 	}
 	requests := 0
 	evl, _ := NewEventLoop(func(ctx context.Context, c Connection) error {
@@ -655,6 +655,7 @@ func runC05Prepare(e *Env) {
 	ln, path := e.NewRawListener("c05p")
 	e.StartServer(evl, ln)
 	var peers []int
+	var detachedIdx []int
 	for i := 0; i < nclients; i++ {
 		before := len(conns)
 		p, err := vsys.HConnectUnix(path)
@@ -670,10 +671,43 @@ func runC05Prepare(e *Env) {
 			vsys.HWrite(p, []byte("hello"))
 			simrt.WaitQuiescentFor(1e9)
 		}
+		if x := conns[len(conns)-1]; x.how == 3 && x.c.IsActive() {
+			// the user takes the descriptor back: the registration with the poller has to be gone afterwards
+			// (whatever this poller slot was used for before) and the descriptor stays open
+			x.c.Detach()
+			simrt.WaitQuiescentFor(1e9)
+			if x.fd < vsys.MaxFD && vsys.FDs[x.fd].Open && vsys.FDs[x.fd].EpollIn != 0 {
+				e.Fail("registration-released", "detached-still-registered", "connection %d was detached by its user but its descriptor %d is still registered with the poller", len(conns)-1, x.fd)
+			}
+			if x.fd < vsys.MaxFD && !vsys.FDs[x.fd].Open {
+				e.Fail("descriptor-closed-once", "fd-closed-after-detach", "connection %d was detached by its user, yet netpoll closed its descriptor %d", len(conns)-1, x.fd)
+			}
+			for k, n := range x.cbs {
+				if n != 1 {
+					e.Fail("closecb-exactly-once", fmt.Sprintf("prepare-closecb-%d-times", n), "connection %d was detached: its close callback %d ran %d times", len(conns)-1, k, n)
+					break
+				}
+			}
+			if vsys.FDs[x.fd].Open && vsys.FDs[x.fd].Owner == vsys.OwnNetpoll {
+				vsys.Disown(x.fd) // the user's descriptor now; it stays open while later connections come and go
+			}
+			detachedIdx = append(detachedIdx, len(conns)-1)
+		}
+	}
+	// the peers of the detached connections keep talking, or hang up: nobody else may hear that
+	for _, i := range detachedIdx {
+		vsys.HWrite(peers[i], []byte("after-detach"))
+		if e.Bool() {
+			vsys.HClose(peers[i])
+			peers[i] = -1
+		}
+	}
+	if len(detachedIdx) > 0 {
+		simrt.WaitQuiescentFor(1e9)
 	}
 	e.nonTriv = true
 	for i, x := range conns {
-		if x.how == 0 {
+		if x.how == 0 || x.how == 3 {
 			continue
 		}
 		what := map[int]string{1: "closed by its OnPrepare", 2: "rejected because its registration failed"}[x.how]
@@ -688,6 +722,25 @@ func runC05Prepare(e *Env) {
 		}
 		if x.c.IsActive() {
 			e.Fail("inactive-after-close", "prepare-still-active", "connection %d was %s but IsActive() is true", i, what)
+		}
+	}
+	// connections that were let through and whose peer is still there must not have been disturbed by
+	// what happened to the others (C10)
+	for i, x := range conns {
+		if x.how != 0 || i >= len(peers) || peers[i] < 0 {
+			continue
+		}
+		ran := 0
+		for _, n := range x.cbs {
+			ran += n
+		}
+		if !x.c.IsActive() || ran != 0 {
+			e.FailP("C10", "bystander-untouched", "prepare-bystander-closed", "connection %d was accepted normally and its peer is connected, but it is inactive (active=%v, close callbacks ran %d times) after other connections on its poller were closed by OnPrepare, rejected or detached", i, x.c.IsActive(), ran)
+		}
+	}
+	for _, i := range detachedIdx {
+		if fd := conns[i].fd; fd < vsys.MaxFD && vsys.FDs[fd].Open && vsys.FDs[fd].Owner != vsys.OwnNetpoll {
+			vsys.HClose(fd)
 		}
 	}
 	// the rest goes down with the server
@@ -711,7 +764,9 @@ func runC05Prepare(e *Env) {
 		}
 	}
 	for _, p := range peers {
-		vsys.HClose(p)
+		if p >= 0 {
+			vsys.HClose(p)
+		}
 	}
 	simrt.WaitQuiescentFor(1e9)
 	e.Summary = fmt.Sprintf("pollers=%d clients=%d hows=%v requests=%d", e.Pollers, nclients, hows, requests)
